@@ -222,6 +222,11 @@ def _exc(ex):
     return f"{type(ex).__name__}: {ex}"[:200]
 
 
+def _raises(text):
+    """Clause name of a call that raised: Raises[ExceptionType]."""
+    return f"Raises[{text.split(':')[0]}]"
+
+
 def seed_all(s):
     np.random.seed(s % (2 ** 32))
     torch.manual_seed(s)
@@ -349,7 +354,7 @@ def check_box_row(c, a, lp, ent, *, u_want, qn, squash, path, check_point=True):
         if a.shape[0] != d:
             return [("Shape", f"action has {a.shape[0]} entries, space has {d}")]
         want_a = np.tanh(u_want) if squash else np.asarray(u_want)
-        if check_point and not np.allclose(a, want_a, rtol=2e-6, atol=2e-6):
+        if check_point and path == "sample" and not np.allclose(a, want_a, rtol=2e-6, atol=2e-6):
             bad.append(("Support", f"returned action {a.tolist()} is not the draw mu + std*eps{' squashed' if squash else ''} = {want_a.tolist()}"))
         want = box_logp(qn, c["kk"], d)
         clause = "LogProb"
@@ -403,6 +408,17 @@ def _batches(rows, sizes, start=0):
         yield rows[i:i + b]
         i += b
         k += 1
+
+
+def _pad3(part):
+    """Pad a batch (cyclically) to a multiple of the three IPPO agents."""
+    part = list(part)
+    n = len(part)
+    i = 0
+    while len(part) % 3:
+        part.append(part[i % n])
+        i += 1
+    return part
 
 
 def _act_tensor(key, acts):
@@ -463,7 +479,7 @@ class DiscKernel:
                     ent2 = actor.action_entropy()
                     lp2 = actor.action_log_prob(_act_tensor(self.key, [x for _, x in part]))
             except Exception as ex:
-                self.fail("actor", "forward", [("Raises", _exc(ex))], part[0][0], batch=len(part))
+                self.fail("actor", "forward", [(_raises(_exc(ex)), _exc(ex))], part[0][0], batch=len(part))
                 continue
             a, lp, ent, lp2, ent2 = (x.detach().cpu().numpy() for x in (a, lp, ent, lp2, ent2))
             if lp.shape != (len(part),) or lp2.shape != (len(part),) or ent.shape != (len(part),):
@@ -500,7 +516,7 @@ class DiscKernel:
             try:
                 a, lp, ent, _ = ag.get_action(obs, action_mask=mask)
             except Exception as ex:
-                self.fail("PPO", "get_action", [("Raises", _exc(ex))], part[0][0], batch=len(part), single=single)
+                self.fail("PPO", "get_action", [(_raises(_exc(ex)), _exc(ex))], part[0][0], batch=len(part), single=single)
                 continue
             a, lp, ent = np.asarray(a), np.asarray(lp).reshape(-1), np.asarray(ent).reshape(-1)
             if lp.shape[0] != len(part) or ent.shape[0] != len(part) or a.shape[0] != len(part):
@@ -523,7 +539,7 @@ class DiscKernel:
                 with torch.no_grad():
                     lp, ent, _ = ag.evaluate_actions(obs_of(ids), _act_tensor(self.key, [x for _, x in part]))
             except Exception as ex:
-                self.fail("PPO", "evaluate_actions", [("Raises", _exc(ex))], part[0][0], batch=len(part))
+                self.fail("PPO", "evaluate_actions", [(_raises(_exc(ex)), _exc(ex))], part[0][0], batch=len(part))
                 continue
             lp, ent = lp.detach().numpy(), ent.detach().numpy()
             if lp.shape != (len(part),) or ent.shape != (len(part),):
@@ -545,8 +561,7 @@ class DiscKernel:
         sample_rows = [(c, None) for j, c in enumerate(cases) if j % stride == off or all_ones(c)]
         seed_all(self.seed + 13)
         for k, part in enumerate(_batches(sample_rows, [3, 6, 12, 24], self.seed)):
-            if len(part) % 3:
-                part = part + part[:3 - len(part) % 3]
+            part = _pad3(part)
             E = len(part) // 3
             training = (k % 3 != 2)
             ag.set_training_mode(training)
@@ -563,7 +578,7 @@ class DiscKernel:
             try:
                 a, lp, ent, _ = ag.get_action(obs, infos=infos)
             except Exception as ex:
-                self.fail("IPPO", "get_action", [("Raises", _exc(ex))], part[0][0], batch=len(part))
+                self.fail("IPPO", "get_action", [(_raises(_exc(ex)), _exc(ex))], part[0][0], batch=len(part))
                 continue
             for j, aid in enumerate(IPPO_IDS):
                 aj, lj, ej = np.asarray(a[aid]), np.asarray(lp[aid]).reshape(-1), np.asarray(ent[aid]).reshape(-1)
@@ -610,11 +625,12 @@ class DiscKernel:
                 for s in spies:
                     s.remove()
             if exc:
-                self.fail(level, "learn", [("Raises", exc)], part[0][0], rows=len(part))
-                continue
+                self.fail(level, "learn", [(_raises(exc), exc)], part[0][0], rows=len(part))
             seen = 0
             for s in spies:
                 for rec in s.recs:
+                    if rec["out"] is None:
+                        continue
                     ids = obs_ids(rec["obs"]).tolist()
                     out = rec["out"].numpy()
                     act = np.asarray(rec["action"])
@@ -631,7 +647,7 @@ class DiscKernel:
                             bad.append(("StoredAction", f"row of observation {rid} is evaluated with action {act[i].tolist()}, stored {ea}"))
                         bad += [b for b in check_disc_row(c, act[i], out[i], None, "eval")]
                         self.fail(level, "learn-eval", bad, c, action=ea)
-            if seen < len(part):
+            if seen < len(part) and not exc:
                 self.fail(level, "learn-eval", [("Coverage", f"learn() re-evaluated {seen} of {len(part)} stored rows")], part[0][0])
 
 
@@ -738,7 +754,7 @@ class BoxKernel:
                     with torch.no_grad(), mock.patch.object(torch, "normal", scripted_normal):
                         a, lp, ent = actor(obs)
                 except Exception as ex:
-                    self.fail("actor", "forward", [("Raises", _exc(ex))], part[0], batch=len(part))
+                    self.fail("actor", "forward", [(_raises(_exc(ex)), _exc(ex))], part[0], batch=len(part))
                     continue
                 a, lp = a.numpy(), lp.numpy()
                 ent = ent.numpy() if ent is not None else [None] * len(part)
@@ -760,7 +776,7 @@ class BoxKernel:
                     with torch.no_grad():
                         lp2 = actor.action_log_prob(torch.as_tensor(stored)).numpy()
                 except Exception as ex:
-                    self.fail("actor", "action_log_prob", [("Raises", _exc(ex))], part[0], batch=len(part))
+                    self.fail("actor", "action_log_prob", [(_raises(_exc(ex)), _exc(ex))], part[0], batch=len(part))
                     continue
                 for i in el:
                     c = part[i]
@@ -782,7 +798,7 @@ class BoxKernel:
                     with mock.patch.object(torch, "normal", scripted_normal):
                         a, lp, ent, _ = ag.get_action(obs)
                 except Exception as ex:
-                    self.fail("PPO", "get_action", [("Raises", _exc(ex))], part[0], batch=len(part))
+                    self.fail("PPO", "get_action", [(_raises(_exc(ex)), _exc(ex))], part[0], batch=len(part))
                     continue
                 a, lp, ent = np.asarray(a), np.asarray(lp).reshape(-1), np.asarray(ent)
                 if a.shape[0] != len(part) or lp.shape[0] != len(part):
@@ -801,7 +817,7 @@ class BoxKernel:
                         lp2, ent2, _ = ag.evaluate_actions(obs, torch.as_tensor(stored.reshape(a.shape)))
                     lp2 = lp2.numpy()
                 except Exception as ex:
-                    self.fail("PPO", "evaluate_actions", [("Raises", _exc(ex))], part[0], batch=len(part))
+                    self.fail("PPO", "evaluate_actions", [(_raises(_exc(ex)), _exc(ex))], part[0], batch=len(part))
                     continue
                 if lp2.shape != (len(part),):
                     self.fail("PPO", "evaluate_actions", [("Shape", f"log_prob {lp2.shape} for {len(part)} stored actions of shape {a.shape}")], part[0])
@@ -822,8 +838,7 @@ class BoxKernel:
             heads.append(h)
         for ks, cs in sorted(self.groups(cases).items()):
             for k, part in enumerate(_batches(cs, [12, 3, 24], self.seed)):
-                if len(part) % 3:
-                    part = part + part[:3 - len(part) % 3]
+                part = _pad3(part)
                 E = len(part) // 3
                 ag.set_training_mode(True)
                 pts = self._set(list(ag.actors), heads, ks, part, rot=1 + k % 3)
@@ -834,7 +849,7 @@ class BoxKernel:
                     with mock.patch.object(torch, "normal", scripted_normal):
                         a, lp, ent, _ = ag.get_action(obs)
                 except Exception as ex:
-                    self.fail("IPPO", "get_action", [("Raises", _exc(ex))], part[0], batch=len(part))
+                    self.fail("IPPO", "get_action", [(_raises(_exc(ex)), _exc(ex))], part[0], batch=len(part))
                     continue
                 for j, aid in enumerate(IPPO_IDS):
                     aj, lj = np.asarray(a[aid]), np.asarray(lp[aid]).reshape(-1)
@@ -876,11 +891,12 @@ class BoxKernel:
             for s in spies:
                 s.remove()
         if exc:
-            self.fail(level, "learn", [("Raises", exc)], part[0], rows=len(part))
-            return
+            self.fail(level, "learn", [(_raises(exc), exc)], part[0], rows=len(part))
         seen = 0
         for s in spies:
             for rec in s.recs:
+                if rec["out"] is None:
+                    continue
                 ids = obs_ids(rec["obs"]).tolist()
                 out = rec["out"].numpy()
                 act = np.asarray(rec["action"])
@@ -901,7 +917,7 @@ class BoxKernel:
                         bad.append(("StoredAction", f"row of observation {rid} is evaluated with action {act[i].tolist()}, stored {ea}"))
                     bad += check_box_row(c, act[i], out[i], None, u_want=box_point(c), qn=c["qn"], squash=self.squash, path="eval")
                     self.fail(level, "learn-eval", bad, c, action=ea)
-        if seen < len(part):
+        if seen < len(part) and not exc:
             self.fail(level, "learn-eval", [("Coverage", f"learn() re-evaluated {seen} of {len(part)} stored rows on the first minibatch")], part[0])
 
 
@@ -967,7 +983,14 @@ class History:
         return wid
 
     def well_conditioned(self, a):
-        return (not self.squash) or float(np.max(np.abs(np.asarray(a, dtype=np.float64)))) <= 0.95
+        """Squashed policies: atanh of the stored action must be well conditioned in float32.  An action outside [-1, 1] can
+        only be in the coordinates of the (non-unit) action space: it is judged after mapping it back to (-1, 1)."""
+        if not self.squash:
+            return True
+        a = np.asarray(a, dtype=np.float64).reshape(-1)
+        if np.max(np.abs(a)) > 1.0 and self.cfg.get("bounds") == "wide":
+            a = 2.0 * (a + 2.0) / 8.0 - 1.0
+        return float(np.max(np.abs(a))) <= 0.95
 
     def row(self, op, fp, oid, a, v, via):
         wid = self._w(fp)
@@ -1055,7 +1078,8 @@ def history_ppo(key, squash, bounds, seed, batch_size):
     ag = make_ppo(key, squash=squash, bounds=bounds, seed=seed, batch_size=batch_size, std_init=(-1.0 if squash else 0.0))
     instrument(ag.actor)
     ag.set_training_mode(True)
-    h = History({"level": "PPO", "shape": shape_name(key, squash, bounds), "squash": int(squash), "seed": seed, "batch_size": batch_size}, squash)
+    h = History({"level": "PPO", "shape": shape_name(key, squash, bounds), "squash": int(squash), "seed": seed, "batch_size": batch_size,
+                 "bounds": bounds}, squash)
     T, E = 4, 2
     seed_all(seed + 6)
     roll = []
@@ -1097,7 +1121,7 @@ def history_ppo(key, squash, bounds, seed, batch_size):
             ag.learn(exp)
         finally:
             spy.remove()
-        _spy_rows(h, [spy], "learn")
+            _spy_rows(h, [spy], "learn")
         evaluate(roll[1])
         evaluate(roll[1])
     except Exception as ex:
@@ -1113,7 +1137,7 @@ def history_ippo(key, squash, bounds, seed, batch_size):
     T, E = 4, 2
     traces = []
     hs = [History({"level": "IPPO", "shape": shape_name(key, squash, bounds), "squash": int(squash), "seed": seed, "batch_size": batch_size,
-                   "policy": j}, squash) for j in range(len(ag.actors))]
+                   "policy": j, "bounds": bounds}, squash) for j in range(len(ag.actors))]
     group = {"agent_0": 0, "agent_1": 0, "other_0": 1}
     seed_all(seed + 7)
     try:
@@ -1147,10 +1171,9 @@ def history_ippo(key, squash, bounds, seed, batch_size):
         try:
             ag.learn(tuple(exp))
         finally:
-            for s in spies:
+            for hh, s in zip(hs, spies):
                 s.remove()
-        for hh, s in zip(hs, spies):
-            _spy_rows(hh, [s], "learn")
+                _spy_rows(hh, [s], "learn")
     except Exception as ex:
         for hh in hs:
             hh.exc("IPPO", _exc(ex))
